@@ -128,10 +128,15 @@ pub fn run(op: &str, args: &[String]) -> Option<String> {
                 Some(Err(_)) => return Some("ERR".into()),
                 Some(Ok(())) => {}
             }
-            let mut it = match Interpreter::from_transaction(&tx, idx as usize) {
-                Ok(i) => i,
-                Err(_) => return Some("ERR".into()),
+            // the same interpreter through the other constructor: TxIn::get_finalised_script + from_transaction_and_script_bits
+            let bits = match tx.get_input(idx as usize).map(|i| i.get_finalised_script()) {
+                Some(Ok(s)) => s.to_script_bits(),
+                _ => return Some("ERR".into()),
             };
+            let mut it = Interpreter::from_transaction_and_script_bits(tx.clone(), idx as usize, bits);
+            if it.script_index() != 0 || it.tx_script().is_none() || it.script_bits().len() != it.script().to_script_bits().len() {
+                return Some("OK:accessors".into());
+            }
             loop {
                 match it.next() {
                     None => break,
